@@ -212,6 +212,12 @@ class Checker:
         """
         finfo = self.fileinfo
 
+        tree = self.info.get("file tree", {})
+        if ("length" not in self.info and list(tree) == [self.name]
+                and "" in tree[self.name] and os.path.isfile(self.root)):
+            # v2 single file torrents do not require the length field
+            self.info["length"] = tree[self.name][""]["length"]
+
         if "length" in self.info:
             self.log_msg("%s points to a single file", self.root)
             self.total = self.info["length"]
